@@ -69,6 +69,10 @@ impl Prop for Forwarding {
         cfg.ext_vals = false;
         cfg.singletons = false;
         cfg.max_fields = 3;
+        // a quarter of the programs are mostly packed types (packed hierarchies, bases at odd offsets)
+        if t.chance(1, 4) {
+            cfg.packed_den = 2;
+        }
         let (prog, _, _) = gen_prog(t, cfg);
         Case { prog, seed: t.u64() }
     }
